@@ -44,6 +44,8 @@ def configs(tier, seed):
             lo = max(1, _log2(ratio))
             for aw in range(lo, min(6, lo + (3 if tier == "quick" else 5)) + 1):
                 out.append({"cdw": cdw, "ratio": ratio, "aw": aw, "D": (2 if tier == "quick" else 3) * (ratio + 2) + 2})
+    out.append({"cdw": 8, "ratio": 4, "aw": 12, "D": 2 * (4 + 2) + 2})
+    out.append({"cdw": 16, "ratio": 2, "aw": 16, "D": 2 * (2 + 2) + 2})
     return out
 
 
